@@ -49,6 +49,11 @@ def with_home(fn):
 def run(sh):
     n = 300 if sh.tier == 'quick' else 50000
     with_home(lambda: engine_line.run_profile(sh, 'C15', 'records', n, MONITORS, nontrivial))
+    # batches edited in place (Batch.parts) by a receive callback of the buffer that is taking them in
+    with_home(lambda: engine_line.run_profile(
+        sh, 'C15', 'records', n // 4, MONITORS, nontrivial, prefix='trimmed_batches_', tag='trim',
+        overrides={'p_trim': 0.6, 'p_batch_source': 0.95, 'stage_w': {'buffer': 6, 'processor': 2, 'handler': 2,
+                                                                      'batcher': 1}}))
     # pools shared by several holders of one-decimal amounts (0.1 + 0.2 - 0.1 - 0.2 leaves rounding dust in the usage)
     with_home(lambda: engine_line.run_profile(
         sh, 'C15', 'records', n // 3, MONITORS, nontrivial, prefix='decimal_pools_', tag='decpools',
